@@ -202,6 +202,19 @@ func selfPricedGas(tx *types.Transaction, gasUsed uint64) uint64 {
 	return gasUsed
 }
 
+// blockStartBalance returns the balance which the account had before any transaction of this block. It is the old value of the first balance log, or current balance if the balance is not changed yet
+func (p *TxProcessor) blockStartBalance(addr common.Address, currentBalance *big.Int) *big.Int {
+	for _, changeLog := range p.am.GetChangeLogs() {
+		if changeLog.LogType == account.BalanceLog && changeLog.Address == addr {
+			if oldValue, ok := changeLog.OldVal.(big.Int); ok {
+				return new(big.Int).Set(&oldValue)
+			}
+			break
+		}
+	}
+	return currentBalance
+}
+
 // buyAndPayIntrinsicGas
 func (p *TxProcessor) buyAndPayIntrinsicGas(gp *types.GasPool, tx *types.Transaction, gasLimit uint64) (uint64, error) {
 	err := p.buyGas(gp, tx)
@@ -422,7 +435,8 @@ func (p *TxProcessor) handleTx(tx *types.Transaction, header *types.Header, txIn
 		_, recipientAddr, restGas, vmErr = vmEnv.Create(sender, tx.Data(), restGas, tx.Amount())
 	case params.VoteTx:
 		candidateVoteEnv := NewCandidateVoteEnv(p.am, p.dm)
-		err = candidateVoteEnv.CallVoteTx(senderAddr, recipientAddr, initialSenderBalance)
+		// The votes must be counted by the balance at the beginning of the block. ChangeVotesByBalance will add the votes of the balance changed in whole block
+		err = candidateVoteEnv.CallVoteTx(senderAddr, recipientAddr, p.blockStartBalance(senderAddr, initialSenderBalance))
 
 	case params.RegisterTx:
 		candidateVoteEnv := NewCandidateVoteEnv(p.am, p.dm)
